@@ -61,6 +61,9 @@ func genMessage(r *core.Rand, depth int, tagged bool) reflect.Type {
 		case k < 6:
 			ft = scalarKinds[r.Intn(len(scalarKinds))]
 			wire = wireFor(r, ft)
+			if ft.Kind() != reflect.Slice && r.Chance(1, 4) {
+				ft = reflect.PointerTo(ft) // optional scalar
+			}
 		case k < 8 && depth < 2:
 			ft = genMessage(r, depth+1, tagged)
 			if r.Bool() {
@@ -300,6 +303,19 @@ func template(r *core.Rand, v reflect.Value, depth int, rules proto.RewriterRule
 			}
 			if subRules != nil && len(subRules) > 0 {
 				rules[fieldName(f)] = subRules
+			}
+			members = append(members, string(name)+":"+js)
+		case ft.Kind() == reflect.Pointer:
+			// optional scalar: a zero in the template removes the field (nil), anything else is
+			// pointed at
+			tmp := reflect.New(ft.Elem()).Elem()
+			js := scalarTemplate(r, tmp)
+			if isZeroScalar(tmp) {
+				dst.SetZero()
+			} else {
+				p := reflect.New(ft.Elem())
+				p.Elem().Set(tmp)
+				dst.Set(p)
 			}
 			members = append(members, string(name)+":"+js)
 		default:
